@@ -295,10 +295,13 @@ Definition chk (v : value) (leaves : list (list string * value)) : bool :=
         fh = FlowHistory(training_loss=[1.0, 0.5], validation_loss=[1.5, 0.75])
         with h5py.File(os.path.join(root, "fh.h5"), "w") as f:
             fh.save(f)
-        with h5py.File(os.path.join(root, "fh.h5"), "r") as f:
-            fh2 = FlowHistory.load(f, "flow_history")
-        if list(np.atleast_1d(fh2.training_loss)) != fh.training_loss:
-            ctx.violation("history-roundtrip:flow", "FlowHistory reloaded differs", {})
+        try:
+            with h5py.File(os.path.join(root, "fh.h5"), "r") as f:
+                fh2 = FlowHistory.load(f)            # save() and load() with their own defaults are a pair
+            if list(np.atleast_1d(fh2.training_loss)) != fh.training_loss or list(np.atleast_1d(fh2.validation_loss)) != fh.validation_loss:
+                ctx.violation("history-roundtrip:flow", "FlowHistory reloaded differs", {})
+        except Exception as e:
+            ctx.violation(f"history-raises:flow:{type(e).__name__}", f"FlowHistory.save(f) followed by FlowHistory.load(f) (default locations) raised {e!r:.200}", {})
         # ---------------- (d) transforms
         from aspire import transforms as T
         # parameter names NOT in alphabetical order and a different interval for each (HDF5 groups iterate alphabetically: a
